@@ -159,7 +159,9 @@ def build(sc):
     w = WBS()
     objs = []
     for (tid, par, attrs) in sc.tasks:
-        objs.append(Task(tid, name='n%s' % tid, tag='g%s' % tid, **attrs))
+        # custom attributes of several kinds: a text, and - on every second task - values that are falsy or None
+        extra = {'owner': None, 'ticket': 0, 'note': ''} if len(objs) % 2 == 0 else {}
+        objs.append(Task(tid, name='n%s' % tid, tag='g%s' % tid, **extra, **attrs))
     try:
         for (tid, par, attrs), t in zip(sc.tasks, objs):
             if par is None:
